@@ -2,7 +2,8 @@
 # usage: tools/mut.sh <patch.diff | -e 'sed-expr' file> -- <gcv args...>
 # Applies a change to a scratch copy of /repo's working tree (or of the snapshot named by
 # MUT_SRC), outside /repo and /verif, runs gcv against it (GCV_REPO), removes the copy.
-# GCV_NOEVIDENCE=1: scratch runs never touch /verif/evidence.
+# GCV_NOEVIDENCE=1: scratch runs never touch /verif/evidence. MUT_VERIF: a snapshot of /verif's
+# baseline / known-findings / residue files to run against (so /verif may change meanwhile).
 set -u
 SCR=$(mktemp -d /tmp/gcvmut.XXXXXX)
 trap 'rm -rf "$SCR"' EXIT
@@ -15,4 +16,4 @@ else
   shift
 fi
 [ "$1" = "--" ] && shift
-GCV_REPO="$SCR" GCV_NOEVIDENCE=1 "${GCV_BIN:-/verif/bin/gcv}" "$@"
+GCV_REPO="$SCR" GCV_VERIF="${MUT_VERIF:-/verif}" GCV_NOEVIDENCE=1 "${GCV_BIN:-/verif/bin/gcv}" "$@"
